@@ -116,7 +116,8 @@ NONDET = re.compile(
     r"^(std::time::(Instant|SystemTime)|std::thread::(spawn|sleep|current)|std::env::(vars|var|args)|rand::|"
     r"std::collections::hash::map::RandomState|std::process::id)")
 HASH_ITER = ("iter", "iter_mut", "values", "values_mut", "keys", "into_iter", "drain", "into_keys", "into_values")
-ORDER_INSENSITIVE = ("any", "all", "count", "sum", "max", "min", "contains", "find_map_any")
+ORDER_INSENSITIVE = ("any", "all", "count", "sum", "max", "min", "contains", "find_map_any",
+                     "min_by_key", "max_by_key", "min_by", "max_by")
 
 
 def r3_determinism(ctx, rule="C01.R3"):
@@ -173,6 +174,15 @@ def r3_determinism(ctx, rule="C01.R3"):
                 owner = prog.enclosing_fn(fn)
                 key = "%s:hash-iteration:%s" % (rule, owner.path.split("::", 1)[1] if owner else fn.path)
                 consumer = _iterator_consumer(fn, t)
+                if consumer is None and _returns_local(fn, t["d"][0]):
+                    # a thin wrapper handing the iterator to its callers: judge every caller
+                    callers = [(g, t2) for g in prog.fns.values() if g.body is not None
+                               for _b2, t2 in g.body.calls() if mir.callee_of(t2) == fn.id]
+                    cons = sorted({str(_iterator_consumer(g, t2)) for g, t2 in callers})
+                    if callers and all(c in ORDER_INSENSITIVE for c in cons):
+                        consumer = cons[0]
+                    elif callers:
+                        consumer = "returned to %d callers: %s" % (len(callers), cons)
                 if consumer in ORDER_INSENSITIVE:
                     ctx.ok(rule, key, "%s:%s" % (fn.file, t.get("ln")), "consumed by order-insensitive `%s`" % consumer)
                 elif (owner.path if owner else fn.path) in allowed:
@@ -187,6 +197,20 @@ def r3_determinism(ctx, rule="C01.R3"):
     if n_fns < 1500:
         raise CheckError("only %d functions reachable from the pipeline entry points" % n_fns)
     ctx.require(rule, 3)
+
+
+def _returns_local(fn, local):
+    """the call result `local` is (moved into) the function's return value"""
+    body = fn.body
+    cur = {local}
+    for _ in range(4):
+        for blk in body.blocks:
+            for st in blk["s"]:
+                if st["k"] == "assign" and st["r"]["k"] == "use":
+                    src = mir.op_place(st["r"]["o"])
+                    if src is not None and src[0] in cur and not st["p"][1]:
+                        cur.add(st["p"][0])
+    return 0 in cur
 
 
 def _iterator_consumer(fn, t):
